@@ -123,7 +123,10 @@ PrevHash(e) ==
 HeavyChecks(s1, s2, e) ==
   LET t == s2.tree
       C == IF Has(e, "img") THEN SafeChains(e.img) ELSE <<>>     \* every chain of the image, followed once
-      wfn == IF Has(e, "img") THEN WFNamesC(e.img, C) ELSE <<>>
+      wfn0 == IF Has(e, "img") THEN WFNamesC(e.img, C) ELSE <<>>
+      \* a history that starts from a foreign image with SURPLUS sectors in a stream's chain (legal: the length field
+      \* says how much of the chain is used) cannot be held to "chain length = ceil(size / sector)" (R5)
+      wfn == IF Has(e, "surplus") THEN SelectSeq(wfn0, LAMBDA n : n # "R5") ELSE wfn0
   IN
   << <<"C01", "api.walk", ApiOK(e) /\ e.api.walk = WalkDump(t), TRUE>>,
      <<"C01", "api.ls", ApiOK(e) => (Has(e.api, "ls") => e.api.ls = LsDump(t)), FALSE>>,
